@@ -171,7 +171,7 @@ Base(p) == IF p \in Bools \cup TDBuiltin THEN 2 ELSE IF p \in {"formatter", "log
 NVar(p, SS) ==
   LET c == Cardinality(SS) IN
   CASE p \in Bools \/ p \in {"formatter", "log-level"} \cup TDBuiltin ->
-         IF Tier = "thorough" THEN (IF Pow(Base(p), c) > 27 THEN 27 ELSE Pow(Base(p), c)) ELSE IF c = 0 THEN 1 ELSE 2
+         IF Tier = "thorough" THEN (IF Pow(Base(p), c) > 27 THEN 27 ELSE Pow(Base(p), c)) ELSE IF c = 0 \/ c >= 3 THEN 1 ELSE 2
     [] p \in MapParams -> IF Tier = "thorough" THEN 4 ELSE 2
     [] p \in Regexes \/ p = "exclude-subpkg-regex" -> IF Tier = "thorough" THEN 3 ELSE 2
     [] OTHER -> 1
